@@ -162,10 +162,14 @@ class Stack:
         self.transport = FakeTransport(loop, self.ash)
         self.transport.on_write = lambda data: self.wire.send("h", data)
         self.wire.sink["h"] = self.ncp.ash.feed
-        self.wire.sink["n"] = self.ash.data_received
+        self.wire.sink["n"] = self._to_host
         self.ash.connection_made(self.transport)
         self.ez._gw = ThreadsafeProxy(self.gateway, loop)
         self.ez._protocol = v4.EZSPv4(self.ez.handle_callback, self.ez._gw)
+
+    def _to_host(self, data):
+        if not self.transport.closing:  # a closed port delivers nothing
+            self.ash.data_received(data)
 
     def host_requests(self):
         """EZSP request frames the host put on the wire, decoded independently: (time, framing, seq, id, first DATA only)."""
